@@ -20,6 +20,7 @@
 From Coq Require Import String Ascii.
 From Coq Require Import List NArith ZArith Bool Lia ZifyBool ZifyNat ZifyN.
 From Iodine Require Import Base Generated.SrcConsts Shell ShellProofs.
+From Iodine Require Handshake HandshakeShell.
 Import ListNotations.
 Local Open Scope N_scope.
 
@@ -189,3 +190,26 @@ Example C13_example_history :
   tun_setip_cmd_old mask_x86 (str "dns0") (str "10.0.0.2 ;id") (str "10.0.0.1") 27 =
   Some (str "PATH=/sbin:/bin ifconfig dns0 10.0.0.2 ;id 10.0.0.2 ;id netmask 255.255.255.224").
 Proof. repeat split; vm_compute; reflexivity. Qed.
+
+(* ------------------------------------------------------------------------------------------ *)
+(* C13_handshake_commands: the statements above are about one reply buffer handed to handshake_login.
+   This one is about the whole handshake as the sequencing model runs it (Handshake.v: every step,
+   handshake_login inside its retry loop, handshake_raw_udp, client_handshake; tied to the real
+   functions by the scripted runs of checks/c06.py, which compare the system() strings too): for EVERY
+   script of datagrams and time-outs -- whatever a server, a relay or an off-path sender delivers, in
+   any order, fitting or not -- every string logged as an argument of system() by any step satisfies
+   shell_cmd_ok (one of the two templates filled with validated dotted quads / an integer in range),
+   provided the ones logged before did.  No step other than the login adds a command, and the login adds
+   only what Shell.login_step builds from a reply that fits its query. *)
+Theorem C13_handshake_commands :
+  forall (st : Handshake.stepname) (s : Handshake.hs) (l : list Handshake.item),
+    ifname_fits (Handshake.h_ifname s) ->
+    Forall (shell_cmd_ok (Handshake.h_ifname s)) (Handshake.h_sys s) ->
+    let s' := snd (fst (Handshake.run_step st s l)) in
+    Handshake.h_ifname s' = Handshake.h_ifname s /\
+    Forall (shell_cmd_ok (Handshake.h_ifname s)) (Handshake.h_sys s').
+Proof.
+  intros st s l H1 H2.
+  exact (HandshakeShell.step_commands_ok_named st s l (conj H1 H2)).
+Qed.
+Print Assumptions C13_handshake_commands.
